@@ -13,9 +13,11 @@ import (
 	"context"
 	"encoding/binary"
 	"encoding/json"
+	"errors"
 	"fmt"
 	"io"
 	"math/rand"
+	"net"
 	"os"
 	"runtime"
 	"strconv"
@@ -79,6 +81,20 @@ type Config struct {
 	// (then "received" is not observable and stands for "started").
 	HWM      string `json:"high_watermark,omitempty"`
 	PureRecv bool   `json:"builder_default_received_handler,omitempty"`
+	// Bad: number of failing requests interleaved into the first half of the
+	// "received before Stop" stream (message shorter than the 4-byte frame
+	// size, wrong header version, truncated header, processor error), each
+	// with a reply subject; the well-formed ones behind them are judged.
+	Bad int `json:"failing_requests,omitempty"`
+	// ConnLoss: the SERVER's broker connection (opened with NoReconnect) is
+	// lost right before Stop, with the K requests already handed to the work
+	// queue: "cut" (TCP connection cut through a proxy) | "broker" (a private
+	// broker is shut down).  Replies cannot be published any more and are not
+	// judged; every request must still be processed once before Serve returns.
+	ConnLoss string `json:"server_conn_lost,omitempty"`
+	// ConnLossFull (probe, never in the default sweep): connection lost while
+	// a NATS callback is parked on the full work queue.
+	ConnLossFull bool `json:"conn_lost_with_blocked_callback_probe,omitempty"`
 	// Probe (never in the default sweep): sole worker calls Stop with more
 	// requests behind it than the queue holds.
 	SoleProbe bool `json:"sole_worker_probe,omitempty"`
@@ -123,6 +139,7 @@ type Result struct {
 	ServeMs      float64  `json:"serve_after_stop_ms"`
 	Timeline     []string `json:"timeline,omitempty"`
 	Restart      bool     `json:"restart,omitempty"` // the child must not run further scenarios
+	BadPublished int      `json:"failing_requests_published"`
 	// early-Stop scenarios: subscriptions on the server connection when Stop
 	// was called (< wanted: Serve was certainly not yet parked on its quit channel)
 	EarlySubs int `json:"subs_at_early_stop"`
@@ -144,6 +161,7 @@ type recProc struct {
 	entered int64
 	exited  int64
 	errs    []string
+	hdrErrs int // requests whose frugal header could not be read (expected for the malformed ones)
 	dur     string
 	seed    int64
 	gate    chan struct{}
@@ -164,7 +182,9 @@ func (p *recProc) fail(s string) {
 func (p *recProc) Process(in, out *frugal.FProtocol) error {
 	ctx, err := in.ReadRequestHeader()
 	if err != nil {
-		p.fail("ReadRequestHeader: " + err.Error())
+		p.mu.Lock()
+		p.hdrErrs++
+		p.mu.Unlock()
 		return err
 	}
 	var buf [9]byte
@@ -192,6 +212,12 @@ func (p *recProc) Process(in, out *frugal.FProtocol) error {
 		if buf[8] != 2 { // the shutdown request itself never waits for the gate (the gate opens when Stop is called)
 			<-p.gate
 		}
+	}
+	if buf[8] == 3 { // a request the processor fails
+		p.mu.Lock()
+		p.exited++
+		p.mu.Unlock()
+		return errors.New("c20: processor error")
 	}
 	if buf[8] == 2 && p.onS != nil {
 		p.onS() // "shutdown" request: the processor stops the server from the worker goroutine
@@ -393,6 +419,63 @@ func (s *scen) hung(what string) *Result {
 
 func flush(nc *nats.Conn) error { return nc.FlushTimeout(60 * time.Second) }
 
+// tcpCut is a one-connection-at-a-time TCP relay in front of the broker; Cut
+// closes the listener and every relayed connection (the fault "TCP connection
+// of the server lost").
+type tcpCut struct {
+	ln    net.Listener
+	mu    sync.Mutex
+	conns []net.Conn
+	dead  bool
+}
+
+func newTCPCut(target string) (*tcpCut, error) {
+	ln, err := net.Listen("tcp", "127.0.0.1:0")
+	if err != nil {
+		return nil, err
+	}
+	t := &tcpCut{ln: ln}
+	go func() {
+		for {
+			a, err := ln.Accept()
+			if err != nil {
+				return
+			}
+			b, err := net.DialTimeout("tcp", target, 10*time.Second)
+			if err != nil {
+				a.Close()
+				continue
+			}
+			t.mu.Lock()
+			if t.dead {
+				t.mu.Unlock()
+				a.Close()
+				b.Close()
+				return
+			}
+			t.conns = append(t.conns, a, b)
+			t.mu.Unlock()
+			go func() { io.Copy(a, b); a.Close(); b.Close() }()
+			go func() { io.Copy(b, a); a.Close(); b.Close() }()
+		}
+	}()
+	return t, nil
+}
+
+func (t *tcpCut) URL() string { return "nats://" + t.ln.Addr().String() }
+
+func (t *tcpCut) Cut() {
+	t.mu.Lock()
+	t.dead = true
+	cs := t.conns
+	t.conns = nil
+	t.mu.Unlock()
+	t.ln.Close()
+	for _, c := range cs {
+		c.Close()
+	}
+}
+
 func runScenario(ns *rig.NatsServer, c Config) (res *Result) {
 	s := &scen{c: c, start: time.Now()}
 	s.res = &Result{Idx: c.Idx, Config: c, Status: "ok"}
@@ -402,12 +485,35 @@ func runScenario(ns *rig.NatsServer, c Config) (res *Result) {
 	defer openGate()
 	rng := rand.New(rand.NewSource(c.Seed))
 
+	// the fault "server connection lost": a private broker that is shut down,
+	// or a TCP relay that is cut; the server's connection does not reconnect
+	var loseConn func()
+	if c.ConnLoss == "broker" {
+		ns2, err := rig.StartNats()
+		if err != nil {
+			return s.inconclusive("private broker: %v", err)
+		}
+		defer ns2.Stop()
+		ns = ns2
+		loseConn = ns2.Stop
+	}
 	var srvConn *nats.Conn
 	var err error
-	switch c.DrainTO {
-	case "":
+	switch {
+	case c.ConnLoss != "":
+		url := ns.URL
+		if c.ConnLoss == "cut" {
+			relay, rerr := newTCPCut(strings.TrimPrefix(ns.URL, "nats://"))
+			if rerr != nil {
+				return s.inconclusive("tcp relay: %v", rerr)
+			}
+			defer relay.Cut()
+			url, loseConn = relay.URL(), relay.Cut
+		}
+		srvConn, err = nats.Connect(url, nats.NoReconnect(), nats.Timeout(10*time.Second))
+	case c.DrainTO == "":
 		srvConn, err = ns.Connect()
-	case "bare": // an application that fills in a nats.Options literal: DrainTimeout stays 0
+	case c.DrainTO == "bare": // an application that fills in a nats.Options literal: DrainTimeout stays 0
 		srvConn, err = nats.Options{Url: ns.URL, AllowReconnect: true, MaxReconnect: -1, Timeout: 10 * time.Second}.Connect()
 	default:
 		d, perr := time.ParseDuration(c.DrainTO)
@@ -529,6 +635,37 @@ func runScenario(ns *rig.NatsServer, c Config) (res *Result) {
 		k1 := imin(c.K1, len(pre))
 		preSeq = append(append(append([]uint64(nil), pre[:k1]...), shutdownID), pre[k1:]...)
 	}
+	// failing requests interleaved into the first half of the stream
+	const badBase = uint64(1) << 40
+	badData := map[uint64][]byte{}
+	procErr := map[uint64]bool{} // well-formed, but the processor fails them: no reply to expect
+	badHeaders := 0
+	if c.Bad > 0 && c.Early == "" && c.StopFrom == "" {
+		for i := 0; i < c.Bad; i++ {
+			item := badBase + uint64(i)
+			switch rng.Intn(5) {
+			case 0:
+				badData[item] = []byte{}
+			case 1:
+				badData[item] = []byte{0, 0}
+			case 2: // wrong header version byte
+				f := wire.BuildFrame([]wire.Pair{{Name: "_opid", Value: "1"}}, []byte{0, 0, 0, 0, 0, 0, 0, 0, 0})
+				f[4] = 1
+				badData[item] = f
+				badHeaders++
+			case 3: // header block announces more bytes than the frame carries
+				badData[item] = []byte{0, 0, 0, 9, 0, 0, 0, 0, 100, 0, 0, 0, 4}
+				badHeaders++
+			default:
+				item = newID(classPre)
+				delete(oneway, item)
+				procErr[item] = true
+			}
+			pos := rng.Intn(len(preSeq)/2 + 1)
+			preSeq = append(preSeq[:pos:pos], append([]uint64{item}, preSeq[pos:]...)...)
+		}
+	}
+	s.res.BadPublished = len(badData) + len(procErr)
 	rest := c.B - c.K
 	nDuring, nAfter := 0, 0
 	switch c.Rest {
@@ -546,11 +683,21 @@ func runScenario(ns *rig.NatsServer, c Config) (res *Result) {
 	for i := 0; i < nAfter+1; i++ { // +1: every scenario probes "after Stop returned"
 		after = append(after, newID(classAfter))
 	}
-	s.res.Requests, s.res.Pre, s.res.During, s.res.After = len(class), len(preSeq), len(during), len(after)
+	s.res.Requests, s.res.Pre, s.res.During, s.res.After = len(class), len(preSeq)-len(badData), len(during), len(after)
 	duringFlushEvery := 1 + rng.Intn(4)
 	var pubErrMu sync.Mutex
 	var pubErr error
 	publish := func(id uint64) {
+		if data, bad := badData[id]; bad {
+			// malformed request with a reply subject (outside the collector's wildcard)
+			if err := pubConn.PublishRequest(subjects[int(id)%busy], fmt.Sprintf("%s.b.%d", base, id-badBase), data); err != nil {
+				pubErrMu.Lock()
+				pubErr = err
+				pubErrMu.Unlock()
+			}
+			s.published.Add(1)
+			return
+		}
 		payload := make([]byte, 9)
 		binary.BigEndian.PutUint64(payload, id)
 		if oneway[id] {
@@ -558,6 +705,9 @@ func runScenario(ns *rig.NatsServer, c Config) (res *Result) {
 		}
 		if id == shutdownID {
 			payload[8] = 2
+		}
+		if procErr[id] {
+			payload[8] = 3
 		}
 		frame := wire.BuildFrame([]wire.Pair{{Name: "_opid", Value: strconv.FormatUint(id, 10)}, {Name: "_cid", Value: "c20-" + strconv.FormatUint(id, 10)}}, payload)
 		err := pubConn.PublishRequest(subjects[int(id)%busy], replyPrefix+strconv.FormatUint(id, 10), frame)
@@ -645,10 +795,16 @@ func runScenario(ns *rig.NatsServer, c Config) (res *Result) {
 	var serveErr error
 	var serveSnap Snap
 	var serveAt time.Time
+	serveCalls := map[uint64]int{} // processor invocations per id at the instant Serve returns
 	go c20ServeGoroutine(func() {
 		s.serveEntered.Store(true)
 		serveErr = server.Serve()
 		serveSnap = s.snap() // the instant Serve returns
+		s.proc.mu.Lock()
+		for k, v := range s.proc.calls {
+			serveCalls[k] = v
+		}
+		s.proc.mu.Unlock()
 		serveAt = time.Now()
 		s.mark("Serve returned")
 		close(serveDone)
@@ -714,12 +870,23 @@ func runScenario(ns *rig.NatsServer, c Config) (res *Result) {
 		if err := dflush(); err != nil {
 			return s.inconclusive("flush: %v", err)
 		}
+		if c.ConnLoss != "" && !c.ConnLossFull {
+			// every request has gone through the NATS callback into the work
+			// queue or a worker (K <= q+w: the callback never blocks)
+			want := int64(len(preSeq))
+			if !s.awaitCond(func() bool { return s.received.Load() >= want }, serveDone) {
+				r := s.inconclusive("requests not handed to the work queue: %+v", s.snap())
+				r.Restart = true
+				return r
+			}
+		}
 		if c.Dur == "gate" && c.K > 0 && c.StopFrom == "" {
 			// handlers are parked on the gate: wait until the server is in the
 			// state "all workers busy, queue full, callback blocked" (or holds
 			// everything, if k is smaller than that)
-			wantStarted := int64(imin(c.K, c.W))
-			wantReceived := int64(imin(c.K, c.W+c.Q+1))
+			kk := c.K + len(procErr) // requests that park on the gate
+			wantStarted := int64(imin(kk, c.W))
+			wantReceived := int64(imin(kk+len(badData), c.W+c.Q+1))
 			if c.PureRecv {
 				wantReceived = 0
 			}
@@ -731,6 +898,14 @@ func runScenario(ns *rig.NatsServer, c Config) (res *Result) {
 		}
 		if c.StopUs > 0 {
 			time.Sleep(time.Duration(c.StopUs) * time.Microsecond)
+		}
+		if loseConn != nil {
+			s.mark("server connection: " + c.ConnLoss)
+			loseConn()
+			if !s.awaitCond(srvConn.IsClosed, serveDone) {
+				return s.inconclusive("server connection did not reach CLOSED after the fault")
+			}
+			s.mark("server connection CLOSED")
 		}
 
 		// ---- Stop ----------------------------------------------------------
@@ -751,6 +926,73 @@ func runScenario(ns *rig.NatsServer, c Config) (res *Result) {
 	}
 	s.res.AtStopRet = stopSnap
 	s.res.StopMs = float64(stopRetAt.Sub(stopAt).Microseconds()) / 1000
+
+	if c.ConnLoss != "" {
+		// nothing can be published to or by the server any more: Stop (which
+		// reports the NATS error) and Serve must return, and every request
+		// handed to the server before Stop must have been processed exactly
+		// once by the time Serve returns; replies are not judged.
+		if !s.await(serveDone) {
+			return s.hung("Serve did not return")
+		}
+		s.res.AtServeRet = serveSnap
+		s.res.ServeMs = float64(serveAt.Sub(stopRetAt).Microseconds()) / 1000
+		if !s.await(duringDone) {
+			return s.inconclusive("publisher goroutine stuck")
+		}
+		if serveErr != nil {
+			return s.inconclusive("Serve error %v", serveErr)
+		}
+		s.proc.mu.Lock()
+		nerr, hdr := len(s.proc.errs), s.proc.hdrErrs
+		final := map[uint64]int{}
+		for k, v := range s.proc.calls {
+			final[k] = v
+		}
+		s.proc.mu.Unlock()
+		if nerr > 0 || hdr > badHeaders {
+			return s.inconclusive("recording processor could not decode a request")
+		}
+		s.tlMu.Lock()
+		tl := append([]string(nil), s.timeline...)
+		s.tlMu.Unlock()
+		counters := map[string]interface{}{"at_stop": s.res.AtStop, "at_stop_returned": s.res.AtStopRet, "at_serve_returned": s.res.AtServeRet, "stop_error": fmt.Sprint(stopErr)}
+		var missing, dup, lateIDs []uint64
+		for _, id := range preSeq {
+			if _, bad := badData[id]; bad {
+				continue
+			}
+			switch n := serveCalls[id]; {
+			case n == 0:
+				missing = append(missing, id)
+			case n > 1:
+				dup = append(dup, id)
+			}
+			if final[id] > serveCalls[id] {
+				lateIDs = append(lateIDs, id)
+			}
+		}
+		cut := func(v []uint64) []uint64 {
+			if len(v) > 24 {
+				return v[:24]
+			}
+			return v
+		}
+		if len(missing) > 0 {
+			s.violation("C20:conn-lost:accepted-request-not-processed-when-serve-returned", fmt.Sprintf("server connection lost before Stop: %d of %d requests that were in the work queue when Stop was called had not been processed when Serve returned (%d of them were processed later by leaked workers)", len(missing), s.res.Pre, len(lateIDs)),
+				map[string]interface{}{"ids": cut(missing), "processed_after_serve_returned": cut(lateIDs), "counters": counters, "timeline": tl})
+		}
+		if len(dup) > 0 {
+			s.violation("C20:pre-stop-request-duplicated", fmt.Sprintf("%d requests received before Stop were processed more than once", len(dup)),
+				map[string]interface{}{"ids": cut(dup), "counters": counters, "timeline": tl})
+		}
+		if serveSnap.Finished != serveSnap.Received || serveSnap.Exited != serveSnap.Entered {
+			s.violation("C20:finished-ne-received-at-serve-return", fmt.Sprintf("at the instant Serve returned: received=%d started=%d finished=%d, processor entered=%d exited=%d", serveSnap.Received, serveSnap.Started, serveSnap.Finished, serveSnap.Entered, serveSnap.Exited),
+				map[string]interface{}{"counters": counters, "timeline": tl})
+		}
+		s.finish()
+		return s.res
+	}
 
 	// ---- phase 3: requests arriving after Stop has returned -------------
 	s.afterIDs = after
@@ -832,6 +1074,9 @@ func runScenario(ns *rig.NatsServer, c Config) (res *Result) {
 		calls[k] = v
 	}
 	perrs := append([]string(nil), s.proc.errs...)
+	if s.proc.hdrErrs > badHeaders {
+		perrs = append(perrs, fmt.Sprintf("%d unreadable headers, %d malformed headers sent", s.proc.hdrErrs, badHeaders))
+	}
 	s.proc.mu.Unlock()
 	if len(perrs) > 0 {
 		return s.inconclusive("recording processor could not decode a request: %v", perrs)
@@ -847,7 +1092,7 @@ func runScenario(ns *rig.NatsServer, c Config) (res *Result) {
 			} else if n > 1 {
 				dup = append(dup, id)
 			}
-			if !oneway[id] && n == 1 {
+			if !oneway[id] && !procErr[id] && n == 1 {
 				if r == 0 {
 					noReply = append(noReply, id)
 				} else if r > 1 {
@@ -877,6 +1122,16 @@ func runScenario(ns *rig.NatsServer, c Config) (res *Result) {
 		s.tlMu.Lock()
 		defer s.tlMu.Unlock()
 		return append([]string(nil), s.timeline...)
+	}
+	var afterServe []uint64
+	for id := uint64(1); id <= nextID; id++ {
+		if calls[id] > serveCalls[id] {
+			afterServe = append(afterServe, id)
+		}
+	}
+	if len(afterServe) > 0 {
+		s.violation("C20:request-processed-after-serve-returned", fmt.Sprintf("%d requests were handed to the processor after Serve had returned", len(afterServe)),
+			map[string]interface{}{"ids": ids(afterServe), "counters": counters, "timeline": tl()})
 	}
 	if len(lost) > 0 {
 		s.violation("C20:pre-stop-request-lost", fmt.Sprintf("%d of %d requests that were inside the server's NATS client before Stop was called were never processed", len(lost), len(pre)),
